@@ -39,3 +39,22 @@ Print Assumptions C13_cpp17.
 Print Assumptions C13_cpp20.
 Print Assumptions C13_modes_agree.
 Print Assumptions C13_modes_are_11_14_17_20.
+
+(* the scheme table, as observed through get_scheme_info on every string of length <= 6 over the
+   letters of the special schemes (1 111 111 strings): exactly the Standard's special schemes with
+   their default ports *)
+From Upa Require Import Spec.Url.
+Definition scheme_entry_ok (e : list N * Z * bool * bool * bool * bool) : bool :=
+  let '(name, port, special, isfile, ishttp, isws) := e in
+  special && is_special_scheme name &&
+  (match default_port name with Some p => (port =? Z.of_N p)%Z | None => (port =? -1)%Z end) &&
+  Bool.eqb isfile (str_eqb name s_file) &&
+  Bool.eqb ishttp (str_eqb name s_http || str_eqb name s_https) &&
+  Bool.eqb isws (str_eqb name s_ws || str_eqb name s_wss).
+Theorem C13_scheme_table :
+  forallb scheme_entry_ok M11.schemes = true
+  /\ forallb (fun n => existsb (fun e => let '(name, _, _, _, _, _) := e in str_eqb name n) M11.schemes)
+              [s_ftp; s_file; s_http; s_https; s_ws; s_wss] = true
+  /\ length M11.schemes = 6%nat /\ M11.schemes_name_mismatch = false /\ M11.scheme_strings_tested = 1111111.
+Proof. repeat split; vm_compute; reflexivity. Qed.
+Print Assumptions C13_scheme_table.
